@@ -46,6 +46,6 @@ STREAMS = [
                       None, quick_n=250, thorough_n=6000),
 ]
 
-LEVEL_TEXT = 'Proof: Lean 4 lemmas that the messages extracted from a TCP stream depend only on the bytes read so far (not on read boundaries), that the frames reaching the server under any write-acceptance pattern are exactly the queued frames, whole and in order, that a truncated UDP answer is retried over TCP unless configured otherwise and a zero-length datagram changes nothing. Tie: every scenario is run twice on the real channel - split down to single-byte reads and short/blocked writes vs unsegmented - and must deliver the same callbacks and wire messages; both halves are also compared with the model.'
+LEVEL_TEXT = 'Proof: Lean 4 lemmas that the messages extracted from a TCP stream depend only on the bytes read so far (not on read boundaries), that the frames reaching the server under any write-acceptance pattern are exactly the queued frames, whole and in order, that a truncated UDP answer is retried over TCP unless configured otherwise and a zero-length datagram changes nothing; at the level of whole channel runs an alignment invariant (for every live TCP connection the consumed position is a message boundary of the stream of its socket) is preserved by every completed call, and the replies handed to process_answer on a connection over a run are exactly the messages that have completely arrived - a prefix of the stream independent of the chunking. Tie: every scenario is run twice on the real channel - split down to single-byte reads and short/blocked writes vs unsegmented - and must deliver the same callbacks and wire messages; both halves are also compared with the model.'
 LEVEL_NOTE = 'Trusted: Lean kernel; model faithfulness (messages are abstract: byte counts and frame boundaries, not contents); virtual sockets.'
 TECHNIQUE = 'Lean 4 proof of segmentation invariance + metamorphic paired scenarios and differential correspondence'
